@@ -23,6 +23,7 @@ struct Cg {
   bool zeroLine = false;   // literal "0" line in cgroup.procs (task of a foreign pid namespace)
   int pref = 0;            // 0 none, 1 prefer, 2 avoid, 3 both
   bool userXattr = false;  // user.oomd_* instead of trusted.oomd_*
+  int preferNs = -1, avoidNs = -1;  // per-mark namespace override: 0 trusted, 1 user, -1 follow userXattr
   int oomGroup = 0;
   long long mem = 0, swap = 0, pgscan = 0, memLow = 0;
   double p10 = 0, p60 = 0;
@@ -54,6 +55,7 @@ struct Scenario {
   std::function<void(Oomd::Oomd&)> afterMake;                       // e.g. install a drop-in adaptor
   std::function<void(int tick)> onTick;                            // scripted environment step before each tick
   std::function<bool(const std::string&, long, int)> hookDecide;   // verif_hook poll answers
+  double killLatency = 0;  // virtual seconds every kill(2) call takes
   std::string describe() const {
     std::ostringstream o;
     o << plugin << "(";
@@ -155,8 +157,9 @@ struct Builder {
     world::setFile(c.rel, "io.stat", "8:0 rbytes=" + std::to_string(c.mem / 4096) + " wbytes=0 rios=0 wios=0 dbytes=0 dios=0\n");
     world::setFile(c.rel, "memory.oom.group", std::to_string(c.oomGroup) + "\n");
     std::string ns = c.userXattr ? "user." : "trusted.";
-    if (c.pref & 1) world::setXattr(c.rel, ns + "oomd_prefer", "1");
-    if (c.pref & 2) world::setXattr(c.rel, ns + "oomd_avoid", "1");
+    auto nsOf = [&](int o) { return o < 0 ? ns : std::string(o ? "user." : "trusted."); };
+    if (c.pref & 1) world::setXattr(c.rel, nsOf(c.preferNs) + "oomd_prefer", "1");
+    if (c.pref & 2) world::setXattr(c.rel, nsOf(c.avoidNs) + "oomd_avoid", "1");
     for (auto& x : c.xattrs) world::setXattr(c.rel, x.first, x.second);
     if (c.zeroLine) world::rawProcsLine(c.rel, "0");
     populate(c, c.nprocs);
@@ -189,6 +192,7 @@ inline Outcome run(const Scenario& s, bool verbose = false) {
   }
   sim::decide = [](const std::string&, const std::string&) { return 0; };
   sim::hookDecide = s.hookDecide;
+  vb::killLatencySec = s.killLatency;
   if (s.afterMake) s.afterMake(*o);
   out.tickStart.assign(s.ticks + 2, 0);
   out.killsStatAtTickEnd.assign(s.ticks + 2, 0);
@@ -220,6 +224,8 @@ inline Outcome run(const Scenario& s, bool verbose = false) {
           auto it = byRel.find(rel);
           long long base = it == byRel.end() ? 10 : it->second.pgscan;
           world::setMemStatKey(rel, "pgscan", base * k);
+          long long io = it == byRel.end() ? 10 : it->second.mem / 4096;
+          world::setFile(rel, "io.stat", "8:0 rbytes=" + std::to_string(io * k) + " wbytes=0 rios=0 wios=0 dbytes=0 dios=0\n");
         }
         if (s.onTick) {
           s.onTick(k);
@@ -233,6 +239,7 @@ inline Outcome run(const Scenario& s, bool verbose = false) {
   out.effects = vb::effects;
   out.calls = sim::calls;
   out.hooks = sim::hookEvents;
+  vb::killLatencySec = 0;
   // parse attempts
   Attempt* cur = nullptr;
   for (size_t i = 0; i < out.effects.size(); i++) {
